@@ -107,6 +107,11 @@ def _mk_fail(ctx, client, p, kind):
         client.fail(p, UnknownTopicOrPartitionError())
     elif kind == 1:
         client.fail(p, FailedPayloadsError([], [(p.args["payloads"][0], Failure(RequestTimedOutError("t/o")))]))
+    elif p.kind == "fetch" and ctx.choose("cancelled_by_third_party", 2) == 1:
+        # the request Deferred is cancelled by something other than the consumer's own stop(): a failure like any other
+        from twisted.internet.defer import CancelledError as TCancelledError
+
+        client.fail(p, TCancelledError())
     else:
         client.fail(p, LeaderNotAvailableError())
 
